@@ -825,6 +825,14 @@ fn value_shapes() -> Vec<(Vec<Piece>, bool)> {
             false,
         ),
         (vec![other("a"), masked("(b,c)"), other("d")], false),
+        // a call inside an argument of a call (the inner delimiters are delimiters of the inner call)
+        (
+            vec![
+                other("%n"), delim("(", T::LPAREN), other("%o"), delim("(", T::LPAREN), other("p"), delim(",", T::COMMA), other("q"), delim(")", T::RPAREN),
+                delim(",", T::COMMA), other("j"), delim("=", T::ASSIGN), other("%upcase"), delim("(", T::LPAREN), other("r"), delim(")", T::RPAREN), delim(")", T::RPAREN),
+            ],
+            false,
+        ),
         (vec![other("1"), masked(";"), other("2")], false),
         // a second '=' at the top level of a value: only where the first '=' already made it a value
         (vec![other("obs"), masked("="), other("10")], true),
@@ -1768,6 +1776,19 @@ fn c14_items(tier: Tier) -> Vec<Deletion> {
     // the same deletions directly after text the lexer rolls back over (a bare call followed by a
     // comment / an exotic blank), with non-ASCII characters and a line break in that text
     let base_n = v.len();
+    // ... and inside other constructs: a macro definition body, after %then, after a macro label,
+    // inside a %do block, after a complete statement
+    for pre in ["%macro q; ", "%if 1 %then ", "%l: ", "%do; ", "x=1;\n", "%macro q(a=1); %if &a %then %do; "] {
+        for k in 0..base_n {
+            if v[k].name == "rparen-open-at-eof-deep" || !FILLERS[..3].iter().any(|f| v[k].before.contains(*f) || v[k].after.contains(*f)) && k % 4 != 0 {
+                continue;
+            }
+            let mut d = v[k].clone();
+            d.before = format!("{pre}{}", d.before);
+            d.at += pre.len();
+            v.push(d);
+        }
+    }
     for pre in ["%m /*\u{e9}*/ ", "\u{e9}=1; %m\u{a0}", "%m /*\u{20ac}\n*/\n"] {
         for k in 0..base_n {
             if v[k].name == "rparen-open-at-eof-deep" {
